@@ -28,6 +28,7 @@ Named(e) ==
     [] e.op = "WriteCompressed" -> WriteCompressed(e.ns, e.vs)
     [] e.op = "WriteCompressedBad" -> WriteCompressedBad(e.why)
     [] e.op = "Close" -> Close
+    [] e.op = "CloseBad" -> CloseBad
     [] e.op = "CloseWhileOpen" -> CloseWhileOpen
     [] OTHER -> FALSE
 
